@@ -547,6 +547,7 @@ func c14Regex(ctx *Ctx, n int) {
 			ws := make([]string, len(all))
 			vals := make([]cty.Value, len(all))
 			for j, ix := range all {
+				c14ProbeIdx(ctx, len(names), len(str.AsString()), ix, pat.AsString(), str.AsString())
 				ws[j] = encInts(ix)
 				vals[j] = regexValue(o2, re, str.AsString(), ix, ty)
 			}
